@@ -1,8 +1,178 @@
-(* C11 - Transcript files read back exactly what was written.  Theorems only. *)
-From Coq Require Import List ZArith Bool QArith.
-From PV Require Import C11.Model C11.Spec C11.Proofs.
+(* C11 - Transcript files read back exactly what was written.
+   Property theorems only: each is closed by [exact <lemma>] and followed by [Print Assumptions].
+   The harness re-checks this file on every run.  Models: C11/Model.v; vocabulary: C11/Spec.v. *)
+From Coq Require Import List ZArith Bool QArith Qabs Sorted Permutation.
+From PV Require Import C11.Model C11.Spec C11.ProofsSort C11.ProofsTrn C11.ProofsCtm C11.ProofsNum
+  C11.ProofsTg C11.ProofsTok C11.Proofs.
 Import ListNotations.
 Local Open Scope Z_scope.
+
+(* ============================== trn ================================================== *)
+
+(* "trn files including nested alternates": one written line parses back to the utterance id and
+   the same elements, alternates nested to ANY depth.  [elem_okb false]: top-level tokens are
+   non-empty and free of white space and "{" (they MAY contain "/", "}", "(" and ")", which
+   sclite and the reader treat as ordinary characters there); tokens inside alternates are also
+   free of "/" and "}"; every alternate has a branch and its last branch is not empty.
+   [utt_okb]: the id contains no "(" and no line break (spaces, ")" and braces are fine). *)
+Theorem c11_trn_line_roundtrip : forall u xs,
+  utt_okb u = true -> forallb (elem_okb false) xs = true ->
+  trn_line (write_elems xs ++ [c_lpar] ++ u ++ [c_rpar]) = Some (Ok (u, xs)).
+Proof. exact trn_line_written. Qed.
+Print Assumptions c11_trn_line_roundtrip.
+
+(* "writing and then reading returns the same utterances, tokens": whole files *)
+Theorem c11_trn_roundtrip : forall ts,
+  trn_okb ts = true -> read_trn_serial (write_trn_file ts) = Ok ts.
+Proof. exact trn_roundtrip. Qed.
+Print Assumptions c11_trn_roundtrip.
+
+(* the reader state machine on a written element sequence, from any state (any open
+   alternates): the elements are appended where the reader is filling - the induction behind
+   the two theorems above, for any nesting depth *)
+Theorem c11_trn_reader_consumes_written : forall xs s rest,
+  p_tok s = [] -> forallb (elem_okb (nonempty_stack s)) xs = true ->
+  run s (write_elems xs ++ rest) = run (push s xs) rest.
+Proof. exact run_elems. Qed.
+Print Assumptions c11_trn_reader_consumes_written.
+
+(* "Giving a path or an already open file produces byte-identical output" (write_trn has no options) *)
+Theorem c11_trn_path_eq_file : forall ts, write_trn_path ts = write_trn_file ts.
+Proof. exact trn_path_eq_file. Qed.
+Print Assumptions c11_trn_path_eq_file.
+
+(* "reading with one worker or many yields the same list": Pool.imap over chunks of any size,
+   the chunks completed in ANY order [sched] (every chunk index occurs in it) *)
+Theorem c11_chunked_read_eq_serial : forall sched chunk_size file,
+  (forall i, (i < length (lines file))%nat -> In i sched) ->
+  read_trn_pool sched chunk_size file = read_trn_serial file.
+Proof. exact pool_eq_serial. Qed.
+Print Assumptions c11_chunked_read_eq_serial.
+
+(* ... through both entry points (the path entry point forgets chunk_size - harmless) *)
+Theorem c11_read_trn_workers_irrelevant : forall processes sched chunk_size file,
+  (forall i, (i < length (lines file))%nat -> In i sched) ->
+  read_trn_file processes sched chunk_size file = read_trn_serial file
+  /\ read_trn_path processes sched chunk_size file = read_trn_serial file.
+Proof. exact workers_irrelevant. Qed.
+Print Assumptions c11_read_trn_workers_irrelevant.
+
+(* imap itself: any function, any chunk size, any completion order *)
+Theorem c11_imap_eq_map : forall (A B : Type) (f : A -> B) sched k (l : list A),
+  (forall i, (i < length l)%nat -> In i sched) -> imap f sched k l = map f l.
+Proof. exact @imap_eq_map. Qed.
+Print Assumptions c11_imap_eq_map.
+
+(* ============================== ctm ================================================== *)
+
+(* "ctm files up to their mandated ordering and with any waveform/channel mapping".
+   [ctm_ok]: distinct utterance ids, utt2wc (dict or channel string) covers them, wc2utt (or
+   None) maps each (wfn, chan) back, transcripts non-empty, 0 <= start <= end.
+   Result: utterances ordered by (wfn, chan), tokens ordered by (start, duration, token). *)
+Theorem c11_ctm_roundtrip_up_to_order : forall m wc2utt key ts,
+  ctm_ok m wc2utt key ts ->
+  exists segs, write_ctm_file (with_times ts) m = Ok segs
+               /\ segs = written key ts
+               /\ read_ctm_file segs wc2utt = Ok (expected key ts).
+Proof. exact ctm_roundtrip. Qed.
+Print Assumptions c11_ctm_roundtrip_up_to_order.
+
+(* what [expected] is, in the property's words: the same utterances ... *)
+Theorem c11_ctm_same_utterances : forall key ts,
+  Permutation (map fst ts) (map fst (expected key ts)).
+Proof. exact expected_perm. Qed.
+Print Assumptions c11_ctm_same_utterances.
+
+(* ... each with the same tokens and times, in start order ... *)
+Theorem c11_ctm_same_tokens : forall key ts u tr, In (u, tr) ts ->
+  exists tr', In (u, tr') (expected key ts) /\ Permutation tr tr'
+              /\ StronglySorted (fun a b => t_start a <= t_start b) tr'.
+Proof. exact expected_tokens. Qed.
+Print Assumptions c11_ctm_same_tokens.
+
+(* ... filed in (wfn, chan) order *)
+Theorem c11_ctm_utterance_order : forall key ts,
+  StronglySorted (fun a b => leb_of wc_cmp (key (fst a)) (key (fst b)) = true) (expected key ts).
+Proof. exact expected_order. Qed.
+Print Assumptions c11_ctm_utterance_order.
+
+(* the file itself is in sclite's order *)
+Theorem c11_ctm_file_sorted : forall key ts,
+  NoDup (map fst ts) ->
+  (forall u u', In u (map fst ts) -> In u' (map fst ts) -> key u = key u' -> u = u') ->
+  StronglySorted (fun a b => seg_leb a b = true) (written key ts).
+Proof. exact written_sorted. Qed.
+Print Assumptions c11_ctm_file_sorted.
+
+(* "any waveform/channel mapping": the inverse of an injective utt2wc dict is a valid wc2utt *)
+Theorem c11_ctm_wc2utt_bijective : forall (d : list (str * (str * str))),
+  NoDup (map snd d) ->
+  forall u wc, In (u, wc) d -> assoc wc_eqb wc (map (fun p => (snd p, fst p)) d) = Some u.
+Proof. exact inverse_mapping_works. Qed.
+Print Assumptions c11_ctm_wc2utt_bijective.
+
+Theorem c11_ctm_path_eq_file : write_ctm_path = write_ctm_file /\ read_ctm_path = read_ctm_file.
+Proof. exact (conj eq_refl eq_refl). Qed.
+Print Assumptions c11_ctm_path_eq_file.
+
+(* ============================== TextGrid ============================================= *)
+
+(* float(f"{x:.pf}") is the printed decimal [rq p x] = round_half_even(x * 10^p) / 10^p ... *)
+Theorem c11_parse_printed_time : forall p x, (0 <= x)%Q -> parse_time (fmt_time p x) = Some (rq p x).
+Proof. exact parse_fmt_time. Qed.
+Print Assumptions c11_parse_printed_time.
+
+(* ... which is "within the print precision": half a unit of the last printed digit *)
+Theorem c11_print_precision : forall p x, (0 <= x)%Q -> (Qabs (rq p x - x) <= half_unit p)%Q.
+Proof. exact rq_close. Qed.
+Print Assumptions c11_print_precision.
+
+(* "TextGrid interval and point tiers to within the print precision with unlabelled gaps filled on
+   request": for EVERY option setting under which the open-file writer succeeds (start/end time,
+   tier name, point_tier forced or inferred, any precision), reading the file back through the tier's
+   index or name returns the same tokens in the same order with every time replaced by its printed
+   decimal (a point tier keeps the start only), then gap-filled.  Hypotheses: times non-negative,
+   entries in start order, no line break in tokens / tier name (and no double quote: the model's
+   line-level reader, unlike the regexes, would survive one - see the report). *)
+Theorem c11_textgrid_roundtrip_to_precision : forall tr st en name pt p file tid fill,
+  write_textgrid_file tr st en name pt p = Ok file ->
+  Forall entry_nonneg tr -> Forall (fun x => no_nl (e_tok x)) tr -> no_nl name ->
+  StronglySorted (fun a b => (e_start a <= e_start b)%Q) tr ->
+  tier_id_ok tid name ->
+  read_textgrid_file NumericSort file tid fill
+  = Ok (fill_gaps fill (rq p (tier_min tr)) (rq p (tier_max tr)) (map (rt p (is_point tr pt p)) tr),
+        rq p (tier_min tr), rq p (tier_max tr)).
+Proof. exact tg_roundtrip. Qed.
+Print Assumptions c11_textgrid_roundtrip_to_precision.
+
+(* without a fill token nothing is inserted *)
+Theorem c11_textgrid_no_fill : forall st xmax tr, fill_gaps None st xmax tr = tr.
+Proof. exact fill_none. Qed.
+Print Assumptions c11_textgrid_no_fill.
+
+(* with one, the result tiles [xmin, xmax] and differs from the entries only by inserted
+   fill-token intervals of positive length *)
+Theorem c11_textgrid_fill_tiles : forall ft l t xmax, chain_ok t xmax l ->
+  contiguous t xmax (fill_gaps (Some ft) t xmax l)
+  /\ filled_from ft l (fill_gaps (Some ft) t xmax l).
+Proof. exact (fun ft l t xmax H => conj (fill_contiguous ft l t xmax H) (fill_filled_from ft l t xmax)). Qed.
+Print Assumptions c11_textgrid_fill_tiles.
+
+(* rounding to the print precision keeps entries ordered and non-overlapping (interval tiers) *)
+Theorem c11_textgrid_rounding_keeps_order : forall p l t xmax, (0 <= t)%Q -> chain_ok t xmax l ->
+  chain_ok (rq p t) (rq p xmax) (map (rt p false) l).
+Proof. exact chain_rounded. Qed.
+Print Assumptions c11_textgrid_rounding_keeps_order.
+
+(* the defect repaired in /repo (fix: read_textgrid sorted the captured STRINGS): with that
+   ordering the round trip above fails as soon as times differ in their number of digits *)
+Theorem c11_textgrid_string_sort_refuted :
+  exists file,
+    write_textgrid_file [([97], 8 # 1, 9 # 1); ([98], 9 # 1, 10 # 1); ([99], 10 # 1, 23 # 2)]
+                        None None [116] None 3 = Ok file
+    /\ read_textgrid_file StringSort file (inr 0) None <> read_textgrid_file NumericSort file (inr 0) None.
+Proof. exact string_sort_refuted. Qed.
+Print Assumptions c11_textgrid_string_sort_refuted.
 
 (* "Giving a path or an already open file produces byte-identical output under every option":
    FALSE for write_textgrid as coded (known finding K5) ... *)
@@ -18,8 +188,94 @@ Theorem c11_path_is_file_with_defaults : forall tr st en name pt p,
 Proof. exact path_is_file_with_defaults. Qed.
 Print Assumptions c11_path_is_file_with_defaults.
 
-(* ... so the entry points agree when the options are left alone *)
+(* ... so the entry points agree when the options are left alone; reading has no such gap *)
 Theorem c11_path_eq_file_when_defaults : forall tr st en name,
   write_textgrid_path tr st en name None 3 = write_textgrid_file tr st en name None 3.
 Proof. exact path_eq_file_when_defaults. Qed.
 Print Assumptions c11_path_eq_file_when_defaults.
+
+Theorem c11_read_textgrid_path_eq_file : read_textgrid_path = read_textgrid_file.
+Proof. exact eq_refl. Qed.
+Print Assumptions c11_read_textgrid_path_eq_file.
+
+(* ============================== token tensors ======================================== *)
+
+(* "times recovered to within one frame shift" (d ms per frame, times in seconds), and frames are
+   ordered, distinct for a non-empty segment, and never the "unknown" marker -1 *)
+Theorem c11_frames_within_one_shift : forall d s e, (0 < d)%Q -> (s <= e)%Q ->
+  within_shift d s (back d (fst (frames_of (Some d) s e)))
+  /\ within_shift d e (back d (snd (frames_of (Some d) s e)))
+  /\ fst (frames_of (Some d) s e) <= snd (frames_of (Some d) s e)
+  /\ ((s < e)%Q -> fst (frames_of (Some d) s e) < snd (frames_of (Some d) s e))
+  /\ ((0 <= s)%Q -> 0 <= fst (frames_of (Some d) s e)).
+Proof. exact frames_within. Qed.
+Print Assumptions c11_frames_within_one_shift.
+
+(* id2token = inverse of an injective token2id gives the token back *)
+Theorem c11_token_ids_roundtrip : forall (t2i : list (tk * Z)) t i,
+  NoDup (map snd t2i) -> assoc tk_eqb t t2i = Some i -> assoc Z.eqb i (swap_pairs t2i) = Some t.
+Proof. exact assoc_inverse. Qed.
+Print Assumptions c11_token_ids_roundtrip.
+
+(* "Converting a transcript to a token tensor and back returns the same tokens, with times
+   recovered to within one frame shift": with a vocabulary (any unk setting; tokens in it) ... *)
+Theorem c11_tokens_roundtrip : forall t2i d unk tr,
+  (0 < d)%Q -> NoDup (map snd t2i) ->
+  Forall (fun a => (exists i, assoc tk_eqb (item_tok a) t2i = Some i) /\ item_times_ok a) tr ->
+  exists rows, transcript_to_token tr (Some t2i) (Some d) unk false = Ok rows
+               /\ Forall2 (item_close d) tr (token_to_transcript rows (Some (swap_pairs t2i)) (Some d)).
+Proof. exact tokens_roundtrip_vocab. Qed.
+Print Assumptions c11_tokens_roundtrip.
+
+(* ... and without one (integer tokens are their own ids) *)
+Theorem c11_tokens_roundtrip_no_vocab : forall d unk tr,
+  (0 < d)%Q ->
+  Forall (fun a => (exists i, item_tok a = TInt i) /\ item_times_ok a) tr ->
+  exists rows, transcript_to_token tr None (Some d) unk false = Ok rows
+               /\ Forall2 (item_close d) tr (token_to_transcript rows None (Some d)).
+Proof. exact tokens_roundtrip_plain. Qed.
+Print Assumptions c11_tokens_roundtrip_no_vocab.
+
+(* ============================== non-vacuity ========================================== *)
+
+(* a transcript with an alternate nested three deep, an empty first branch, "/" and "}" as
+   top-level tokens and an id with a space and ")" meets the hypotheses; so does an empty one *)
+Example c11_trn_nonvacuous :
+  trn_okb [([117; 32; 41], [Tok [97; 47]; Alt [[]; [Tok [98]; Alt [[Tok [99]]; [Alt [[Tok [100]]]]]]]; Tok [125]]);
+           ([], [])] = true.
+Proof. reflexivity. Qed.
+
+(* two utterances that the writer has to re-order, tokens with tied start times *)
+Example c11_ctm_nonvacuous :
+  ctm_ok (inr [65]) None (fun u => (u, [65]))
+         [([98], [([120], 5, 7); ([121], 5, 6)]); ([97], [([122], 0, 0)])]
+  /\ expected (fun u => (u, [65])) [([98], [([120], 5, 7); ([121], 5, 6)]); ([97], [([122], 0, 0)])]
+     = [([97], [([122], 0, 0)]); ([98], [([121], 5, 6); ([120], 5, 7)])].
+Proof.
+  split; [|reflexivity]. split.
+  - cbn. repeat constructor; cbn; intuition discriminate.
+  - intros u tr H. reflexivity.
+  - intros u tr H. reflexivity.
+  - intros u tr [H|[H|[]]]; inversion H; discriminate.
+  - intros u tr [H|[H|[]]]; inversion H; subst; repeat constructor; unfold valid_tok; cbn; intuition lia || (cbn; Lia.lia).
+Qed.
+
+(* an interval tier with a gap, times that need rounding, read back with a fill token *)
+Example c11_textgrid_nonvacuous :
+  let tr := [([97], 1 # 8, 1 # 3); ([98], 1 # 2, 21 # 2)] in
+  (exists file, write_textgrid_file tr None (Some (11 # 1)) [116] None 2 = Ok file)
+  /\ Forall entry_nonneg tr /\ StronglySorted (fun a b => (e_start a <= e_start b)%Q) tr
+  /\ chain_ok (tier_min tr) (tier_max tr) tr
+  /\ map (rt 2 (is_point tr None 2)) tr = [([97], 12 # 100, 33 # 100); ([98], 50 # 100, 1050 # 100)].
+Proof.
+  cbv zeta. split; [eexists; vm_compute; reflexivity|].
+  split; [repeat constructor; cbn; discriminate|].
+  split; [repeat constructor; cbn; discriminate|].
+  split; [vm_compute; intuition discriminate|reflexivity].
+Qed.
+
+Example c11_tokens_nonvacuous :
+  transcript_to_token [Timed (TStr [97]) (1 # 2) (81 # 100); Plain (TStr [98])]
+                      (Some [(TStr [97], 12); (TStr [98], 7)]) (Some (10 # 1)) None false
+  = Ok [(12, 50, 81); (7, -1, -1)].
+Proof. reflexivity. Qed.
